@@ -1,14 +1,20 @@
 (* Model of what the server keeps across a stop and a start, and of the savers' file effects:
-     pkg/tindex/inmem.go   saveStateUnsafe (Rename(tindex.dat -> tindex.bak), then WriteFile(tindex.dat)), loadState
+     pkg/tindex/inmem.go   saveStateUnsafe (WriteFile(tindex.dat.tmp), then Rename(tindex.dat.tmp -> tindex.dat)), loadState
                            (reads tindex.dat only), checkConsistency (a journal with data and no record: Init fails)
      pkg/tmindex/cindex.go cindex.dat: written by close() only, read by init(); onWrite/update widen the hull in memory;
                            syncChunks/lightFill give an unknown chunk the hull (first, last record)
-     pkg/pipe/service.go   pipes.dat: written by Shutdown() only (persister.savePipes), read by Init (a file that does
-                           not parse: Init fails)
-     range chunk writer    acknowledged records sit in the writer's buffer until the flush timer fires; nothing in the
-                           shutdown sequence flushes them; the process exit drops them
+     pkg/pipe/service.go   pipes.dat: written (persister.savePipes: WriteFile(pipes.dat.tmp), Rename over pipes.dat) by
+                           CreatePipe / DeletePipe when the definitions changed and by Shutdown(); read by Init (a file
+                           that does not parse: Init fails)
+     range chunk writer    acknowledged records sit in the writer's buffer until the flush timer fires;
+     pkg/partition         Service.Shutdown syncs the chunk being written of every journal; a crash drops the buffers
      server/server.go      Start: Init of every component, on cancel Shutdown of every component, return.
    Definitions only.
+
+   The three behaviours above that were repaired in the code (sync at shutdown, tindex written aside and renamed, pipes
+   saved on change and atomically) are switches of the model ([fixes]); the code is [code_fix] = all on. The earlier
+   behaviour (tindex: Rename(tindex.dat -> tindex.bak) then WriteFile(tindex.dat) in place; pipes.dat written in place by
+   Shutdown only; no sync at shutdown) stays expressible, so that props/C07.v can state what each repair bought.
 
    File contents are not bytes here: a file holds a value ([Whole v], what encoding/json wrote and reads back) or a
    proper prefix of an encoding ([Torn k], which does not parse - for the JSON objects/arrays written by the three savers
@@ -42,11 +48,12 @@ Record mem := mkMem {
   m_cur : list (nat * nat)                     (* partition -> id of the chunk being written *)
 }.
 
-(* switches of the proposed repairs; the code is [code_fix] *)
+(* the three repaired behaviours; the code is [code_fix], the code before the repairs [unrepaired] *)
 Record fixes := mkFix { fx_sync : bool;       (* partition.Service.Shutdown syncs every journal *)
-                        fx_atomic : bool;     (* tindex: write tindex.tmp, then rename over tindex.dat *)
+                        fx_atomic : bool;     (* tindex: write tindex.dat.tmp, then rename over tindex.dat *)
                         fx_pipes : bool }.    (* pipes.dat saved (atomically) on every create / delete *)
-Definition code_fix : fixes := mkFix false false false.
+Definition code_fix : fixes := mkFix true true true.
+Definition unrepaired : fixes := mkFix false false false.
 
 Definition empty_disk : disk := mkDisk None None None None [] O.
 Definition empty_mem : mem := mkMem [] [] [] [] [].
@@ -110,6 +117,14 @@ Definition flush_all (m : mem) (d : disk) : mem * disk :=
 
 Definition save_pipes (d : disk) (l : list nat) : disk :=
   mkDisk (d_tdat d) (d_tbak d) (d_cdat d) (Some (Whole l)) (d_jrnl d) (d_next d).
+Definition set_pipes (d : disk) (c : option (fcontent (list nat))) : disk :=
+  mkDisk (d_tdat d) (d_tbak d) (d_cdat d) c (d_jrnl d) (d_next d).
+
+(* the states a crash inside persister.savePipes can leave: nothing yet / done; written in place also: torn at any k *)
+Inductive pcrash_at (fx : fixes) (d : disk) (l : list nat) : disk -> Prop :=
+| pcrash_before : pcrash_at fx d l d
+| pcrash_done : pcrash_at fx d l (save_pipes d l)
+| pcrash_torn : forall k, fx_pipes fx = false -> pcrash_at fx d l (set_pipes d (Some (Torn k))).
 
 Definition do_step (fx : fixes) (md : mem * disk) (s : step) : mem * disk :=
   let '(m, d) := md in
@@ -133,14 +148,16 @@ Definition do_step (fx : fixes) (md : mem * disk) (s : step) : mem * disk :=
       else let ps := m_pipes m ++ [n] in
            (mkMem (m_parts m) (m_buf m) (m_hull m) ps (m_cur m), if fx_pipes fx then save_pipes d ps else d)
   | SDelPipe n =>
-      let ps := filter (fun x => negb (Nat.eqb x n)) (m_pipes m) in
-      (mkMem (m_parts m) (m_buf m) (m_hull m) ps (m_cur m), if fx_pipes fx then save_pipes d ps else d)
+      if mem_nat n (m_pipes m) then
+        let ps := filter (fun x => negb (Nat.eqb x n)) (m_pipes m) in
+        (mkMem (m_parts m) (m_buf m) (m_hull m) ps (m_cur m), if fx_pipes fx then save_pipes d ps else d)
+      else (m, d)                                (* NotFound: nothing changes, nothing is saved *)
   end.
 
 Definition run_steps (fx : fixes) (md : mem * disk) (l : list step) : mem * disk := fold_left (do_step fx) l md.
 
 (* ---- the end of a session: what is on disk when the process is gone ---- *)
-(* graceful: every Shutdown runs (pipes.dat, cindex.dat; with the repair: the journals are synced first); then exit *)
+(* graceful: every Shutdown runs (pipes.dat, the journals are synced, cindex.dat); then exit *)
 Definition graceful (fx : fixes) (m : mem) (d : disk) : disk :=
   let '(m1, d1) := if fx_sync fx then flush_all m d else (m, d) in
   mkDisk (d_tdat d1) (d_tbak d1) (Some (Whole (m_hull m1))) (Some (Whole (m_pipes m1))) (d_jrnl d1) (d_next d1).
@@ -156,7 +173,9 @@ Inductive surgery :=
 | GCStale                  (* cindex.dat as the previous clean shutdown left it *)
 | GPTorn (k : nat) | GPDrop.
 
-(* with the atomic savers the torn file is the .tmp one and there is no rename window: tindex.dat / pipes.dat stay whole *)
+(* with the atomic savers the torn file is the .tmp one and there is no rename window: tindex.dat / pipes.dat stay whole.
+   [GTTorn] after a stop is a start that dies inside the save ending Init; [GPTorn] at a session end that is not graceful
+   is a shutdown sequence that dies inside its first saver, the pipes save *)
 Definition apply_surgery (fx : fixes) (prev_cdat : option (fcontent snap)) (d : disk) (g : surgery) : disk :=
   match g with
   | GTRenamed => if fx_atomic fx then d else
@@ -262,8 +281,14 @@ Fixpoint run_sessions (fx : fixes) (np : nat) (lo hi : Z) (d : disk) (l : list s
 (* ---- vocabulary of the statements ---- *)
 (* what the clients were told: registered partitions, acknowledged events (flushed or not), pipe definitions *)
 Definition acked (m : mem) (d : disk) (p : nat) : list Z := events_of p (d_jrnl d) ++ get_list p (m_buf m).
-(* a running server and its directory agree *)
+(* a running server and its directory agree: the tag index is saved, every journal with data and every buffer belongs
+   to a registered partition, there is one buffer per partition and it belongs to the chunk being written *)
+Definition bufs_ok (m : mem) : Prop :=
+  NoDup (map fst (m_buf m)) /\ forall p, In p (map fst (m_buf m)) -> lookup p (m_cur m) <> None.
 Definition consistent (m : mem) (d : disk) : Prop :=
   d_tdat d = Some (Whole (m_parts m)) /\
   (forall p, In p (with_data d) -> In p (m_parts m)) /\
-  (forall p, lookup p (m_buf m) <> None -> In p (m_parts m)).
+  (forall p, lookup p (m_buf m) <> None -> In p (m_parts m)) /\
+  bufs_ok m.
+(* one chunk per partition (a limit of the model, not of the code) *)
+Definition keys_nodup (d : disk) : Prop := NoDup (map fst (d_jrnl d)).
